@@ -414,10 +414,12 @@ class Check:
             self.cov["samples"].append(obj)
 
     # ---- proof side
-    def proofs(self, extra_trusted=()):
-        """Regenerate Gen/, compile the property file, record obligations."""
+    def proofs(self, extra_trusted=(), only=None):
+        """Regenerate Gen/, compile the property file, record obligations.
+        Translator failures count for this property only when the failing component is one its
+        theories (transitively) import, or is listed in `only`."""
+        mine = gen_components_of(self.prop) | set(only or [])
         errs = gen_sources()
-        mine = gen_components_of(self.prop)
         gen_broken = {k: v for k, v in errs.items() if v and k in mine}
         self.cov["translators_in_tie"] = sorted(mine)
         res = check_properties_file(self.prop)
